@@ -26,6 +26,8 @@ impl<const BITS: usize, const LIMBS: usize> Decodable for Uint<BITS, LIMBS> {
     fn decode(s: &Rlp) -> Result<Self, DecoderError> {
         // `Rlp::data` also returns the payload of list items; a list is not an integer.
         if s.is_list() {
+            #[cfg(feature = "recmo_uint_verif")]
+            crate::verif_hooks::hit(179);
             return Err(DecoderError::RlpExpectedToBeData);
         }
         Self::try_from_be_slice(s.data()?).ok_or(DecoderError::Custom(
